@@ -12,6 +12,7 @@ DECIDED = ("R1 Board::state is, exactly, the table (no legal move, in check) -> 
            "R2 in_check() is exactly `checkers != empty`; R3 the from-scratch computation (update_pin_info) and the incremental tail of make-move consult the same attacker "
            "classes: knight and pawn attack tables at the king square, bishop/rook rays, `between`, Bishop|Queen and Rook|Queen of the mover, with the slider loop unconditional "
            "and both cached sets cleared before being rebuilt; R4 every successful return of the FEN parser and of the builder is dominated by the from-scratch refresh.")
+DECIDED = DECIDED + ' R6 holds on EVERY way out of update_pin_info (an early return in front of the knight/pawn checkers is reported).'
 NOT_DECIDED = ("equality of incrementally maintained and rebuilt state on actual histories (needs the semantics of the bitboard arithmetic on real positions); "
                "'in check exactly when the king is attacked' beyond the dependence clauses of R3")
 EXPLANATION = "K4 decision table for state/in_check; K2 dominance for the constructors; K3 dependence signatures (set of lookups/fields reached) for the two computations of the cached sets."
